@@ -36,6 +36,8 @@ type Float struct {
 	OK bool
 	F  float64
 	W  int // 32 or 64
+	// Pow10Of != nil: the (unknown) value is math.Pow10 of this int64 term
+	Pow10Of *smt.Term
 }
 
 // Str is a string whose bytes are terms. If Dec != nil the string is the
